@@ -435,7 +435,9 @@ fn compile_certs(tx: &tir::Tx, network: Network) -> Result<Vec<primitives::Certi
 }
 
 fn compile_reference_inputs(tx: &tir::Tx) -> Result<Vec<primitives::TransactionInput>, Error> {
-    let refs = tx
+    let mut refs: Vec<primitives::TransactionInput> = vec![];
+
+    let all = tx
         .references
         .iter()
         .flat_map(coercion::expr_into_utxo_refs)
@@ -443,8 +445,14 @@ fn compile_reference_inputs(tx: &tir::Tx) -> Result<Vec<primitives::TransactionI
         .map(|x| primitives::TransactionInput {
             transaction_id: x.txid.as_slice().into(),
             index: x.index as u64,
-        })
-        .collect();
+        });
+
+    // reference inputs form a set: two blocks may point at the same utxo
+    for item in all {
+        if !refs.contains(&item) {
+            refs.push(item);
+        }
+    }
 
     Ok(refs)
 }
@@ -468,11 +476,20 @@ fn compile_required_signers(tx: &tir::Tx) -> Result<Option<primitives::RequiredS
         return Ok(None);
     };
 
-    let hashes = signers
+    let all = signers
         .signers
         .iter()
         .map(coercion::expr_into_address_keyhash)
         .collect::<Result<Vec<_>, _>>()?;
+
+    // required signers form a set: the same party may be listed more than once
+    let mut hashes = vec![];
+
+    for hash in all {
+        if !hashes.contains(&hash) {
+            hashes.push(hash);
+        }
+    }
 
     Ok(primitives::RequiredSigners::from_vec(hashes))
 }
